@@ -1,4 +1,160 @@
+"""C12: side conditions of the pool contract, checked on the real AST on every run (solver: none needed - the
+obligations are closed formulas over the syntax), plus the workers' frame obligations (non-interference)."""
+import ast
+from pyvc.vals import *  # noqa
+from pyvc.task import Task
+
+# pool call sites the argument was made for: (function, pool method) -> how its results are collected
+KNOWN_SITES = {
+    ("amr_kitchen.plotfile_cooker.LevelDataIterator.__init__", "imap"): "ordered: per-file lists chained in submission order",
+    ("amr_kitchen.plotfile_cooker.LevelDataStream.__getitem__", "map"): "ordered: list in requested box order",
+    ("amr_kitchen.plotfile_cooker.LevelDataStream.iter", "imap"): "ordered iterator in requested box order",
+    ("amr_kitchen.taste.taste.Taster.taste_binary_headers", "imap"): "ordered: any non-None result fails, order irrelevant to the verdict",
+    ("amr_kitchen.taste.taste.Taster.taste_binary_shape", "imap"): "ordered: idem",
+    ("amr_kitchen.taste.taste.Taster.taste_binary_data", "imap"): "ordered (function is an open known finding of C03)",
+    ("amr_kitchen.colander.colander.Colander.strain", "map"): "ordered: zipped with box_index_map built in the same loop",
+    ("amr_kitchen.combine.combine.combine", "map"): "ordered: zipped with map_bfile_offsets (same np.unique order)",
+    ("amr_kitchen.combine.combine.combine", "imap"): "ordered: idem",
+    ("amr_kitchen.chef.chef.Chef.cook", "imap"): "ordered: zipped with box_index_map built in the same loop",
+    ("amr_kitchen.mandoline.mandoline.Mandoline.slice", "map"): "ordered list per level, reduced in level then box order",
+    ("amr_kitchen.mandoline.mandoline.Mandoline.plate", "map"): "ordered list per level",
+    ("amr_kitchen.pestle.pestle.volume_integral", "imap"): "ordered: float accumulation in task order",
+    ("amr_kitchen.whip.cli.main", "imap_unordered"): "UNORDERED: boxes of one level are disjoint slabs, levels strictly sequential (commutes)",
+    ("amr_kitchen.chk2plt.chk2plt.chk2plt.convert", "imap"): "ordered: zipped with state_bin_box_ids built in the same loop",
+    ("amr_kitchen.mandoline_bias_cut.main", "map"): "outside every listed property (bias cut prototype)",
+}
+POOL_METHODS = {"map", "imap", "imap_unordered", "starmap", "apply_async", "map_async", "apply", "amap", "uimap"}
+
+
+def enclosing_functions(tree, modqual):
+    out = []
+
+    def walk(node, qual):
+        for c in ast.iter_child_nodes(node):
+            if isinstance(c, ast.ClassDef):
+                walk(c, f"{qual}.{c.name}")
+            elif isinstance(c, (ast.FunctionDef, ast.AsyncFunctionDef)):
+                out.append((f"{qual}.{c.name}", c))
+                walk(c, f"{qual}.{c.name}")
+            else:
+                walk(c, qual)
+    walk(tree, modqual)
+    return out
+
+
+class PoolSites(Task):
+    prop = "C12"
+    reach = "U"
+    qual = None
+
+    def __init__(self):
+        self.name = "pool-contract-side-conditions"
+
+    def functions(self):
+        return []
+
+    def call(self, ex, inp):
+        return None
+
+    def post(self, ex, inp, out):
+        ctx = ex.ctx
+        repo = ex.repo
+        sites = {}
+        pool_ctor_args = []
+        cpu_dep = []
+        global_writes = []
+        serial_pairs = []
+        for mq, m in repo.modules.items():
+            if mq.endswith("mandoline_bias_cut"):
+                continue      # prototype outside every listed property (not one of the property's tools)
+            for fq, fdef in enclosing_functions(m.tree, mq):
+                own = [n for n in ast.walk(fdef)]
+                for n in own:
+                    if isinstance(n, ast.Call):
+                        f = n.func
+                        # Pool(...) constructions
+                        nm = f.attr if isinstance(f, ast.Attribute) else (f.id if isinstance(f, ast.Name) else None)
+                        if nm in ("Pool", "ProcessingPool", "ThreadPool"):
+                            if n.args or n.keywords:
+                                pool_ctor_args.append((fq, n.lineno))
+                        if nm in ("cpu_count", "sched_getaffinity", "process_cpu_count"):
+                            cpu_dep.append((fq, n.lineno))
+                        if isinstance(f, ast.Attribute) and f.attr in POOL_METHODS:
+                            tgt = f.value
+                            is_pool = (isinstance(tgt, ast.Name) and "pool" in tgt.id.lower()) or \
+                                      (isinstance(tgt, ast.Attribute) and "pool" in tgt.attr.lower()) or \
+                                      (isinstance(tgt, ast.Call) and isinstance(tgt.func, (ast.Name, ast.Attribute)) and
+                                       (getattr(tgt.func, "id", None) or getattr(tgt.func, "attr", "")) in ("Pool", "ProcessingPool"))
+                            if is_pool:
+                                # innermost function only
+                                sites.setdefault((fq, f.attr), []).append(n.lineno)
+                    if isinstance(n, ast.Global):
+                        global_writes.append((fq, tuple(n.names)))
+        # keep the innermost enclosing function of each call (a nested def would be listed twice)
+        keys = set(sites)
+        unknown = sorted(k for k in keys if k not in KNOWN_SITES and not any(
+            k[0].startswith(o[0] + ".") and o[1] == k[1] for o in keys if o != k))
+        ctx.oblige("worker-count: every pool is created without a worker-count argument", not pool_ctor_args, "P",
+                   note=str(pool_ctor_args))
+        ctx.oblige("worker-count: no expression depends on the number of CPUs", not cpu_dep, "P", note=str(cpu_dep))
+        unordered = sorted(k for k in keys if k[1] in ("imap_unordered", "uimap", "apply_async", "map_async", "amap"))
+        ctx.oblige("collection: unordered collection only at the site whose reduction commutes (whip)",
+                   unordered == [("amr_kitchen.whip.cli.main", "imap_unordered")] or unordered == [], "P", note=str(unordered))
+        unknown = [k for k in unknown if k not in unordered]
+        if unknown:
+            raise Unsupported(f"pool call site(s) not covered by the argument: {unknown}")
+        # module globals are written only before pool creation (chef: in the constructor)
+        okg = all(fq.endswith("Chef.set_global_sarrays") for fq, names in global_writes)
+        ctx.oblige("determinism: module globals read by workers are written only before the pool is created", okg, "P",
+                   note=str(global_writes))
+        # serial == parallel: both branches apply the same worker to the same task list
+        for fq, worker, tasks_ in (("amr_kitchen.mandoline.mandoline.Mandoline.slice", "slice_box", "pool_inputs"),
+                                   ("amr_kitchen.mandoline.mandoline.Mandoline.plate", "plate_box", "pool_inputs")):
+            r = repo.func(fq)
+            ok = False
+            if r:
+                src = ast.unparse(r[0])
+                ok = f"list(map({worker}, {tasks_}))" in src and f"pool.map({worker}, {tasks_})" in src
+            ctx.oblige(f"serial=parallel: {fq.rsplit('.', 1)[1]} applies the same worker to the same task list in both modes", ok, "P")
+        r = repo.func("amr_kitchen.chef.chef.Chef.cook")
+        ok = False
+        if r:
+            src = ast.unparse(r[0])
+            ok = "self.knife(args)" in src and "for args in tqdm(mp_calls)" in src and "pool.imap(self.knife, mp_calls)" in src
+        ctx.oblige("serial=parallel: Chef.cook applies the same knife to the same task list in both modes", ok, "P")
+        # results of ordered calls are consumed in submission order next to the task list (no sort / reverse / set)
+        bad = []
+        for (fq, meth), lines in sites.items():
+            if meth not in ("map", "imap"):
+                continue
+            r = repo.func(fq)
+            if not r:
+                continue
+            for n in ast.walk(r[0]):
+                if isinstance(n, ast.Call) and isinstance(n.func, ast.Name) and n.func.id in ("sorted", "reversed", "set", "frozenset"):
+                    for a in ast.walk(n):
+                        if isinstance(a, ast.Attribute) and a.attr in ("map", "imap"):
+                            bad.append((fq, n.lineno))
+        ctx.oblige("collection: ordered results are not re-ordered before they are paired with the task list", not bad, "P", note=str(bad))
+
+
 def pool_tasks(prop):
-    return []
+    from props.C05 import StrainWorker
+    from props.combine_kernels import ByBinfile, ByBoxes
+    from props.chef_kernels import UserPfileKnife
+    from props.chk_kernels import ChkWorker
+    out = [PoolSites()]
+    # non-interference: each worker writes only its own output file and reads only its inputs (frames proved on the
+    # real bodies); distinct tasks get distinct output files because they come from distinct np.unique entries
+    for t in (StrainWorker(3), ByBoxes(), UserPfileKnife(False), ChkWorker(False, False, False)):
+        t.prop = "C12"
+        out.append(t)
+    return out
+
+
 def pool_canaries():
-    return []
+    return [("colander collects its workers' offsets unordered",
+             [("amr_kitchen/colander/colander.py", "new_offsets = pool.map(self.strainer, mp_calls)",
+               "new_offsets = list(pool.imap_unordered(self.strainer, mp_calls))")], ["pool-contract-side-conditions"]),
+            ("a pool sized from the CPU count", [("amr_kitchen/pestle/pestle.py", "    pool = multiprocessing.Pool()", "    pool = multiprocessing.Pool(multiprocessing.cpu_count() // 2)")],
+             ["pool-contract-side-conditions"])]
